@@ -1,17 +1,7 @@
-import Dbus.Model.Encode
+import Dbus.Model.Build
 /- driver: interpreter of message-construction programs (C02). The program language mirrors
    the public construction API; the result is the abstract message, serialised by `encodeMsg`. -/
 open Dbus Dbus.Spec Dbus.Model
-
-mutual
-partial def valTy : Val → Ty
-  | .fixed b _ => .basic b
-  | .str b _ => .basic b
-  | .variant _ _ => .variant
-  | .array et _ => .array et
-  | .struct vs => .struct (vs.map valTy)
-  | .dict k vt _ => .dict k vt
-end
 
 inductive Child
   | val (v : Val)
@@ -37,15 +27,7 @@ def typeOfArraySig (sg : String) : Option Ty :=
   | some [t] => some t
   | _ => none
 
-def setHdr (m : Msg) (code : Nat) (b : BTy) (v : Val) : Msg :=
-  applyEdit m (.set { code := code, ty := .basic b, val := v })
-
-/-- a completed top-level value: append to the body and (re)set the SIGNATURE field -/
-def pushTop (m : Msg) (v : Val) : Msg :=
-  let body := m.body ++ [v]
-  let tys := m.bodyTypes ++ [valTy v]
-  let sg := printList tys
-  setHdr { m with body := body, bodyTypes := tys } 8 .sig (.str .sig sg)
+-- `setHdr` and `pushTop` are the library's (Dbus.Model.Build): the theorems of Props/C02 are about them
 
 def addChild (st : BState) (c : Child) : BState :=
   match st.stack with
